@@ -264,3 +264,64 @@ func FuzzC19(f *testing.F) {
 		}
 	})
 }
+
+// FuzzC07: arbitrary SDL; the load verdict must equal the reference validator's wherever the
+// reference is defined (unsupported regions and unparsable text are skipped by checkSchemaVerdict).
+func FuzzC07(f *testing.F) {
+	for _, s := range c07Corpus {
+		f.Add(s)
+	}
+	for _, s := range repoGraphQLFiles() {
+		if len(s) < 2000 {
+			f.Add(s)
+		}
+	}
+	for _, s := range c13Corpus {
+		f.Add(s)
+	}
+	f.Fuzz(func(t *testing.T, in string) {
+		if !utf8.ValidString(in) || len(in) > 1500 || strings.Count(in, "{") > 60 {
+			return
+		}
+		if v, skip, _ := c07Eval(nil, schemaCase{Sources: []srcText{{"s.graphql", in}}}); !skip && v != "" {
+			t.Fatalf("VIOLATION property=C07: %s\nschema: %q", v, in)
+		}
+	})
+}
+
+// FuzzC10: the same (schema, query) texts validated in fresh runs and re-validated.
+func FuzzC10(f *testing.F) {
+	for _, q := range append(append([]string{}, c10Corpus...), c08Corpus...) {
+		f.Add(q)
+	}
+	f.Fuzz(func(t *testing.T, q string) {
+		if !utf8.ValidString(q) || len(q) > 500 || strings.Count(q, "{") > 40 || strings.Count(q, "...") > 10 {
+			return
+		}
+		for _, schema := range []string{c10Schema, c08Schema} {
+			if v, _, _, _ := c10EvalK(valCase{Schema: schema, Query: q}, 4); v != "" {
+				t.Fatalf("VIOLATION property=C10: %s\nquery: %q", v, q)
+			}
+		}
+	})
+}
+
+// FuzzC20: every error any entry point returns for the text has the required shape.
+func FuzzC20(f *testing.F) {
+	fuzzSeeds(f, false)
+	f.Fuzz(func(t *testing.T, in string) {
+		if len(in) > 1024 || strings.Count(in, "{") > 60 {
+			return
+		}
+		cases := []c20Case{
+			{Kind: "lex", Sources: []srcText{{"l.graphql", in}}}, {Kind: "query", Sources: []srcText{{"q.graphql", in}}}, {Kind: "query", Sources: []srcText{{"", in}}, Limit: 7},
+			{Kind: "schema", Sources: []srcText{{"a.graphql", in}}, Limit: 9}, {Kind: "load", Sources: []srcText{{"a.graphql", in}}},
+			{Kind: "validate", Schema: c08Schema, Query: in, QName: "q.graphql"}, {Kind: "validate", Schema: c08Schema, Query: in},
+		}
+		for _, c := range cases {
+			if v, _ := c20Eval(c); v != "" {
+				t.Fatalf("VIOLATION property=C20: %s\ncase: %+v", v, c)
+			}
+		}
+	})
+}
